@@ -91,7 +91,7 @@ def opOfJson (j : Json) : Option Op :=
   let nf := nfOfJson (jget j "nf")
   let ids := strs (jget j "ids")
   match jstr (jget j "kind") with
-  | "create" => some (.create nf (strs (jget j "rollback")))
+  | "create" => some (.create nf (strs (jget j "rollback")) (strs (jget j "deployed")))
   | "capacity" => some (.capacity nf)
   | "removepod" => some (.removePod (jstr (jget j "pod")))
   | "node" => some (.nodeLocked (jstr (jget j "node")))
@@ -151,7 +151,21 @@ def handleOrder (j : Json) : Json :=
   let failAt : Option Nat := if jhas j "fail" then (let f := jint (jget j "fail"); if f ≥ 0 then some f.toNat else none) else none
   match opOfJson j with
   | none => verdict id false Json.null viol "unknown-kind"
-  | some op =>
+  | some op0 =>
+    -- create: which nodes got workloads (hence a remap goroutine) depends on the strategy; take the set
+    -- from the recorded remap episodes, insist that it lies within the selected nodes, then compare exactly
+    let selected : List String := match op0 with
+      | .create nf _ _ => match filterNodes w.nodes nf with | .ok ns => ns.map (·.name) | _ => []
+      | _ => []
+    let remapped : List String := (w.nodes.filter fun n =>
+      implEps.any fun t => isNodeOpOnly t && t == withNodeOperationLocked w n.name []).map (·.name)
+    let strayRemap := match op0 with
+      | .create .. => !(remapped.all selected.contains)
+      | _ => false
+    let op := match op0 with
+      | .create nf rb _ => Op.create nf rb remapped
+      | o => o
+    if strayRemap then verdict id false Json.null viol "locks-create-stray-remap" else
     let eps0 := (episodes w op).filter (· ≠ [])
     let eps := match failAt with
       | some k => (eps0.map (failTrunc k)).filter (· ≠ [])
